@@ -90,7 +90,7 @@ func VerifBroadcastOrder() {
 	b.Broadcast(vMsg{4, 0})
 	zzverif.WaitQuiescent()
 	zzverif.Assert(len(c1.got) == 3, "nothing_delivered_after_close")
-	zzverif.Assert(zzverif.ThreadsAlive() == 2, "forwarders_gone_after_close") // only the two consumers are left
+	zzverif.Assert(zzverif.ThreadsAliveIs(2), "forwarders_gone_after_close") // only the two consumers are left
 	zzverif.Cover("broadcast_order_done")
 }
 
@@ -161,6 +161,6 @@ func VerifBroadcastClose() {
 	for i := 0; i+1 < len(c2.got); i++ {
 		zzverif.Assert(c2.got[i].id < c2.got[i+1].id, "order_respects_call_order")
 	}
-	zzverif.Assert(zzverif.ThreadsAlive() == 1, "forwarders_gone_after_close")
+	zzverif.Assert(zzverif.ThreadsAliveIs(1), "forwarders_gone_after_close")
 	zzverif.Cover("broadcast_close_done")
 }
